@@ -32,8 +32,27 @@ def log(*a):
 
 # ------------------------------------------------------------------ cargo / drivers
 
+def _alt_harness():
+    """For the author's own background experiments only (vp run --with-repo): VERIF_REPO=<dir> builds a copy of the harness
+    against a snapshot of the repository instead of /repo.  Registered checks never set it."""
+    global HARNESS
+    alt = os.environ.get("VERIF_REPO")
+    if not alt:
+        return
+    dst = os.path.join(WORK, "harness_alt")
+    shutil.rmtree(os.path.join(dst, "src"), ignore_errors=True)
+    os.makedirs(dst, exist_ok=True)
+    shutil.copytree(os.path.join(HARNESS, "src"), os.path.join(dst, "src"))
+    shutil.copytree(os.path.join(HARNESS, ".cargo"), os.path.join(dst, ".cargo"), dirs_exist_ok=True)
+    shutil.copy(os.path.join(HARNESS, "Cargo.lock"), dst)
+    toml = open(os.path.join(HARNESS, "Cargo.toml")).read().replace('/repo/falcon-rust', os.path.join(alt, "falcon-rust"))
+    open(os.path.join(dst, "Cargo.toml"), "w").write(toml)
+    HARNESS = dst
+
+
 def build_harness():
     """Rebuild the harness against /repo's current working tree (hooks on)."""
+    _alt_harness()
     env = dict(os.environ, CARGO_NET_OFFLINE="true")
     t0 = time.time()
     p = subprocess.run(["cargo", "build", "--release", "--offline"], cwd=HARNESS, env=env,
